@@ -236,6 +236,11 @@ pub fn replay<P: Property>(tier: Tier, path: &std::path::Path) -> i32 {
 static PROGRESS: AtomicU64 = AtomicU64::new(0);
 const WATCHDOG_SECS: u64 = 900;
 
+/// called by long-running steps that are not cases (fuzz campaigns)
+pub fn heartbeat() {
+    PROGRESS.fetch_add(1, Ordering::Relaxed);
+}
+
 fn start_watchdog(id: &'static str) {
     std::thread::spawn(move || {
         let mut last = PROGRESS.load(Ordering::Relaxed);
